@@ -2,7 +2,7 @@ SPECIFICATION Spec
 CONSTANTS
   Kind = "q"
   Cap = 2
-  MaxVal = 4
+  MaxVal = 3
   Ops = {"send", "try_send", "send_batch", "recv", "try_recv", "recv_batch"}
 INVARIANT Inv
 CHECK_DEADLOCK FALSE
